@@ -16,7 +16,7 @@ func init() {
 		Explanation: "Decides structural clauses of C06: (R-C06-1) in every db.DB operation each state mutation, and each return of a non-nil secret value, is edge-dominated by the nil edge of a permission helper that writes the audit record, called for the operation's caller, action and name; List's listing is dominated by its own audit write; " +
 			"(R-C06-2) the helper cannot return nil when the audit write failed (path-enumerated), List returns an error on that edge; (R-C06-3) the helper writes the record on every path, and every refusal branch (Allow false) reaches it before returning; " +
 			"(R-C06-4) no audit write lies on any path to the return of ErrValueNotChanged; (R-C06-5) the record's fields are the helper's own parameters / the Allow result, and operations with a version parameter pass it on; " +
-			"(R-C06-6) audit.Writer: every Encode error is returned, success only through Sync whose result is returned, Sync forwards to the sink's Sync, the encoder writes to the very sink that is synced, no buffering layer; (R-C06-7) the audit file is opened O_WRONLY|O_APPEND|O_CREATE without O_TRUNC, owner-only; (R-C06-8) the principal is built from the request's own address and WhoIs answer.",
+			"(R-C06-6) audit.Writer: every Encode error is returned, success only through Sync whose result is returned, Sync forwards to the sink's Sync, the encoder writes to the very sink that is synced, no buffering layer; (R-C06-7) the audit file is opened O_WRONLY|O_APPEND|O_CREATE without O_TRUNC, owner-only; (R-C06-8) the principal is built from the request's own address and WhoIs answer; (R-C06-11) package audit writes no field of an Entry other than ID and Time. (R-C06-10) the Writer keeps the encoder it was built with (C14's R-C14-7: its fields are assigned only by the constructor), so a sink error stays latched and no later record is glued onto a torn one.",
 		NotDecided:  "Interleaving of concurrent appends on a real file (O_APPEND semantics of the kernel, one Write per Encode: trusted); that the sink really reaches stable storage.",
 		Trusted:     append([]string{"json.Encoder.Encode issues one Write per value", "O_APPEND appends atomically per write(2)", "multierr.New nil iff all elements nil"}, commonTrusted...),
 		Assumptions: []string{"GetConditional's peek (kv.get before the audit write) is by design; the rule is on the return of the value, as the property states"},
@@ -161,6 +161,8 @@ func runC06(c *eng.Ctx, tier string) {
 	// precedes every look at the database (C01's rule), so no refusal can come
 	// from the state without a record
 	includeOnly(c, "R-C06-9", func(sc *eng.Ctx) { runC01(sc, "quick") }, "R-C01-1")
+	// the writer keeps the encoder it was built with (a failed write stays failed: no record is glued onto a torn one)
+	includeOnly(c, "R-C06-10", func(sc *eng.Ctx) { runC14(sc, "quick") }, "R-C14-7")
 	eng.SetRoot(nil)
 	// R-C06-2 / R-C06-3 / R-C06-5 on each logging helper
 	var lfs []*ssa.Function
@@ -719,6 +721,22 @@ func c06Writer(c *eng.Ctx) {
 		}
 	})
 	c.Check(okNew, "R-C06-6", nw, nw.Pos(), "audit.New wiring", "enc = json.NewEncoder(w) on the same w that Sync syncs, w being New's argument (no buffering layer)", detail)
+	// the record written is the entry the store handed in: the writer fills in
+	// ID and Time (as documented) and touches no other field of it
+	nSet := 0
+	for _, f := range p.PkgFuncs("audit") {
+		for _, a := range eng.FieldAccesses(f) {
+			if !a.Write || !(eng.IsNamed(a.Field.Owner, "audit", "Entry") || eng.IsNamed(a.Field.Owner, "audit", "Principal")) || freshBase(a.Base) {
+				continue
+			}
+			nSet++
+			okk := eng.IsNamed(a.Field.Owner, "audit", "Entry") && (a.Field.Name == "ID" || a.Field.Name == "Time")
+			c.Check(okk, "R-C06-11", f, a.In.Pos(), "audit writer sets Entry."+a.Field.Name, "the writer only stamps ID and Time; principal, action, secret name, version and authorization are recorded exactly as the store supplied them (never shortened, normalised or dropped)", "field "+a.Field.Name+" rewritten in "+eng.FName(f))
+		}
+	}
+	if nSet == 0 {
+		c.Ok("R-C06-11", we, we.Pos(), "fields of Entry written in package audit", "none")
+	}
 	// no bufio in package audit
 	for _, f := range p.PkgFuncs("audit") {
 		eng.Instrs(f, func(in ssa.Instruction) {
